@@ -39,7 +39,23 @@ def mk_obj(cls_path, attr_specs, provenance='param'):
             lab, maker = spec.instances()[0][:2]
             attrs[an] = maker(st, '%s_%s' % (name, an))
         return SObj(cls, attrs, provenance=provenance, label=name)
-    return TSpec([(cls_path.rsplit('.', 1)[-1], mk)])
+
+    def sampler(rng, n):
+        return _obj_samples(cls_path, {an: spec.instances()[0][0] for an, spec in attr_specs.items()}, rng, n)
+    return TSpec([(cls_path.rsplit('.', 1)[-1], mk, sampler)])
+
+
+def _obj_samples(cls_path, attr_labels, rng, n):
+    """Concrete descriptors of objects for the bounded stand-in."""
+    from pyvc.replay import sample_values
+    pools = {an: sample_values(lab, rng, n) for an, lab in attr_labels.items()}
+    if any(not p for p in pools.values()):
+        return []
+    out = []
+    longest = max([len(p) for p in pools.values()] + [1])
+    for i in range(min(longest, 3 * n + 40)):
+        out.append({'__obj__': cls_path, 'attrs': {an: (p[i] if i < len(p) else rng.choice(p)) for an, p in pools.items()}})
+    return out
 
 
 def product_obj(cls_path, attr_specs, provenance='param'):
@@ -55,7 +71,10 @@ def product_obj(cls_path, attr_specs, provenance='param'):
             cls = resolve_class(cls_path)
             return SObj(cls, {n: c[1](st, '%s_%s' % (name, n)) for n, c in zip(names, combo)},
                         provenance=provenance, label=name)
-        makers.append((label, mk))
+
+        def sampler(rng, n, combo=combo):
+            return _obj_samples(cls_path, {an: c[0] for an, c in zip(names, combo)}, rng, n)
+        makers.append((label, mk, sampler))
     return TSpec(makers)
 
 
